@@ -179,12 +179,12 @@ def binop(I, st, op, l, r, node):
     f = BIN.get(type(op))
     if f is None:
         raise Unsupported(f"binary operator {type(op).__name__}")
+    if isinstance(l, Opaque) and l.tag == "path" and isinstance(op, ast.Div):
+        return Opaque("path", parent=l, name=r)
     if isinstance(l, str) or isinstance(r, str):
         if isinstance(op, (ast.Add, ast.Mod)):
             return "<str>"
         raise Unsupported("string operator")
-    if isinstance(l, Opaque) and l.tag == "path" and isinstance(op, ast.Div):
-        return Opaque("path", parent=l, name=r)
     if l is None or r is None:
         raise PyRaise("TypeError", "unsupported operand type(s): NoneType")
     if isinstance(l, tuple) and isinstance(r, tuple) and isinstance(op, ast.Add):
@@ -1128,7 +1128,7 @@ def np_ones(I, st, args, kw, node):
         return st.new_arr(Arr(shp, lambda *i: True, "bool"))
     if tn == "int":
         return st.new_arr(Arr(shp, lambda *i: 1, "int"))
-    return st.new_arr(Arr(shp, lambda *i: z3.RealVal(1), "real"))
+    return st.new_arr(Arr(shp, lambda *i: z3.RealVal(1), "real", prov=("const", z3.RealVal(1))))
 
 
 @ext("numpy.empty")
